@@ -108,7 +108,7 @@ def handleE2E {K V P H M Pat} [DecidableEq K] [DecidableEq V] [DecidableEq P]
   else do
   let cvs ← pList (pOpt (pList dom.pCons))
   let nPatterns ← pNat
-  let getFlags ← pList pBool
+  let getFlags ← pList pNat
   let nStates ← pNat
   let evs ← pEvents
   let dump ← pDump dom.pKey dom.pCons
@@ -132,7 +132,7 @@ def handleE2E {K V P H M Pat} [DecidableEq K] [DecidableEq V] [DecidableEq P]
   let compiled := idx.filter fun i => (cvs.getD i none).isSome
   if nPatterns != compiled.length then
     out := { out with oracle := out.oracle ++ [s!"C06 n_patterns={nPatterns} compiled={compiled.length}"] }
-  let expectFlags := (List.range (pats.length + 2)).map fun i => compiled.contains i
+  let expectFlags := (List.range (pats.length + 2)).map fun i => if compiled.contains i then 1 else 0
   if getFlags != expectFlags then
     out := { out with oracle := out.oracle ++ ["C06 get_pattern does not reflect the compiled patterns"] }
   if fallbackFail && compiled.length != pats.length then
